@@ -54,5 +54,8 @@ def run(ctx):
             evs, ret = ctx.events('io_loop::io_loop_handle::IoLoopHandle0::' + nm)
             txt = [S.show(e.term) for e in evs if e.kind == 'call' and e.callee == 'std::result::Result::map_err' and 'SyncSender::send' in S.show(e.term)]
             r.check('%s:error-path' % nm, len(txt) == 1 and txt[0].endswith('|$c0| %scheck_recv_for_error(self.common))' % H0), ctx.site('io_loop::io_loop_handle::IoLoopHandle0::' + nm), built=txt)
+    with ctx.rule('R09.5', 'crossing closes: a CloseOk for an already removed slot is not an error (other channels keep working)', floor=1) as r:
+        A.check_script(ctx, r, arms, ('Method', 'n', 'channel', 'CloseOk'))
+
     with ctx.rule('R09.4', 'the closed id becomes available again', floor=1) as r:
         c10.reuse(ctx, r)
